@@ -64,6 +64,7 @@ theorem mainBlocksN_eq (top : Bool) : ∀ n : Node, blockNamesOf (regionN top n)
   | .call .. => by simp [regionN, mainBlocksN, blockNamesOf]
   | .attr .. => by simp [regionN, mainBlocksN, blockNamesOf]
   | .args => by simp [regionN, mainBlocksN, blockNamesOf]
+  | .incl _ => by simp [regionN, mainBlocksN, blockNamesOf]
   | .defn _ _ _ => by cases top <;> simp [regionN, mainBlocksN, blockNamesOf, blockNamesOf_defBlocks]
   | .callTag _ => by simp [regionN, mainBlocksN, blockNamesOf]
   | .block (some b) _ k => by simp [regionN, mainBlocksN, blockNamesOf, mainBlocksL_eq false k]
@@ -79,6 +80,7 @@ theorem anonLinesN_sub (top : Bool) : ∀ n : Node, (anonLines (regionN top n)).
   | .call .. => by simp [regionN, anonLines]
   | .attr .. => by simp [regionN, anonLines]
   | .args => by simp [regionN, anonLines]
+  | .incl _ => by simp [regionN, anonLines]
   | .defn _ _ _ => by cases top <;> simp [regionN, anonLines, anonLines_defBlocks]
   | .callTag _ => by simp [regionN, anonLines]
   | .block (some b) _ k => by
@@ -98,6 +100,7 @@ theorem defNamesN_sub (top : Bool) : ∀ n : Node, (defNamesOf (regionN top n)).
   | .call .. => by simp [regionN, defNamesOf]
   | .attr .. => by simp [regionN, defNamesOf]
   | .args => by simp [regionN, defNamesOf]
+  | .incl _ => by simp [regionN, defNamesOf]
   | .defn _ _ _ => by cases top <;> simp [regionN, defNamesOf, allDefNamesN, defNamesOf_defBlocks]
   | .callTag _ => by simp [regionN, defNamesOf]
   | .block (some b) _ k => by
@@ -123,6 +126,7 @@ theorem topDefNames_sub : ∀ l : List Node, (topDefNames l).Sublist (allDefName
     | call _ _ _ _ => simpa [topDefNames, allDefNamesL, allDefNamesN] using ih
     | attr _ _ => simpa [topDefNames, allDefNamesL, allDefNamesN] using ih
     | args => simpa [topDefNames, allDefNamesL, allDefNamesN] using ih
+    | incl _ => simpa [topDefNames, allDefNamesL, allDefNamesN] using ih
     | block _ _ k =>
       simp only [topDefNames, allDefNamesL, allDefNamesN]
       exact ih.trans (List.sublist_append_right _ _)
@@ -367,6 +371,7 @@ theorem defsOf_topRegs_region : ∀ l : List Node, defsOfRegs (topRegs (regionL 
     | call _ _ _ _ => simp [regionN, topRegs, defsOfRegs, topDefNames]
     | attr _ _ => simp [regionN, topRegs, defsOfRegs, topDefNames]
     | args => simp [regionN, topRegs, defsOfRegs, topDefNames]
+    | incl _ => simp [regionN, topRegs, defsOfRegs, topDefNames]
     | callTag k => simp [regionN, topRegs, defsOfRegs, topDefNames]
     | block b ln k =>
       cases b with
@@ -389,6 +394,7 @@ where
     | .call .. => by simp [regionN]
     | .attr .. => by simp [regionN]
     | .args => by simp [regionN]
+    | .incl _ => by simp [regionN]
     | .defn _ _ _ => by
       intro e he nm
       simp only [regionN, List.mem_cons, List.mem_map, Bool.false_eq_true, if_false] at he
@@ -425,6 +431,7 @@ theorem allBlocksN_nil_iff : ∀ n : Node, allBlocksN n = [] ↔ mainBlocksN n =
   | .call .. => by simp [allBlocksN, mainBlocksN, misplacedN]
   | .attr .. => by simp [allBlocksN, mainBlocksN, misplacedN]
   | .args => by simp [allBlocksN, mainBlocksN, misplacedN]
+  | .incl _ => by simp [allBlocksN, mainBlocksN, misplacedN]
   | .defn _ _ _ => by simp [allBlocksN, mainBlocksN, misplacedN]
   | .callTag _ => by simp [allBlocksN, mainBlocksN, misplacedN]
   | .block (some b) _ k => by simp [allBlocksN, mainBlocksN, misplacedN]
@@ -445,6 +452,7 @@ theorem allBlocksN_eq_main : ∀ n : Node, misplacedN n = [] → allBlocksN n = 
   | .call .. => by simp [allBlocksN, mainBlocksN]
   | .attr .. => by simp [allBlocksN, mainBlocksN]
   | .args => by simp [allBlocksN, mainBlocksN]
+  | .incl _ => by simp [allBlocksN, mainBlocksN]
   | .defn _ _ _ => by simp [allBlocksN, mainBlocksN, misplacedN]
   | .callTag _ => by simp [allBlocksN, mainBlocksN, misplacedN]
   | .block (some b) _ k => by
@@ -472,6 +480,7 @@ theorem deepN_nil_iff (rk : Root) (top : Bool) (rest : List Node) : ∀ n : Node
   | .call .. => by simp [deepN, misplacedN, regionN, defFaults]
   | .attr .. => by simp [deepN, misplacedN, regionN, defFaults]
   | .args => by simp [deepN, misplacedN, regionN, defFaults]
+  | .incl _ => by simp [deepN, misplacedN, regionN, defFaults]
   | .defn nm ps k => by
     intro ha
     simp only [allAnonLinesN] at ha
